@@ -80,6 +80,9 @@ func genChurnPlan(maxInitial, maxPhases, maxActions int, anchors ...uint64) *rap
 					used[id] = true
 					all = append(all, id)
 					phase.Actions = append(phase.Actions, churnAction{Kind: "join", ID: id, Pick: rapid.IntRange(0, 1<<16).Draw(t, "via")})
+				} else if ph > 0 && rapid.IntRange(0, 3).Draw(t, "rejoin") == 0 {
+					// restart of a node that left in an earlier phase (old identity, old store)
+					phase.Actions = append(phase.Actions, churnAction{Kind: "rejoin", Pick: rapid.IntRange(0, 1<<16).Draw(t, "which"), Focus: rapid.IntRange(0, 1<<16).Draw(t, "rejoinVia")})
 				} else {
 					phase.Actions = append(phase.Actions, churnAction{Kind: "leave", Pick: rapid.IntRange(0, 1<<16).Draw(t, "leaver")})
 				}
@@ -107,6 +110,7 @@ func genChurnPlan(maxInitial, maxPhases, maxActions int, anchors ...uint64) *rap
 type churnOutcome struct {
 	JoinsOK, JoinsFailed   int
 	LeavesOK, LeavesFailed int
+	Rejoins                int
 	JoinLeaveConcurrent    bool // some phase ran a join and a leave concurrently
 	AdjacentActions        bool // two actions of one phase touched adjacent ring positions
 	Log                    []string
@@ -155,6 +159,26 @@ func runChurn(r *simRing, plan churnPlan, out *churnOutcome) {
 				}
 			}
 		}
+		// "rejoin": a node that left gracefully earlier restarts with its old identity AND its
+		// old store (a normal restart of a node with persistent storage)
+		for _, a := range phase.Actions {
+			if a.Kind != "rejoin" {
+				continue
+			}
+			var departed []*ringsim.Member
+			for _, m := range r.allMembers() {
+				if m.Joined.Load() && m.Node.VerifState() == chord.Left && !usedRel[m.ID] {
+					departed = append(departed, m)
+				}
+			}
+			if len(departed) == 0 {
+				continue
+			}
+			old := departed[a.Pick%len(departed)]
+			usedRel[old.ID] = true
+			via := live[a.Focus%len(live)]
+			rs = append(rs, resolved{act: churnAction{Kind: "rejoin", ID: old.ID}, leaver: old, via: via.ID})
+		}
 		for _, a := range phase.Actions {
 			if a.Kind == "join" {
 				if a.Rel {
@@ -183,7 +207,7 @@ func runChurn(r *simRing, plan churnPlan, out *churnOutcome) {
 		touched := []uint64{}
 		hasJoin, hasLeave := false, false
 		for _, x := range rs {
-			if x.act.Kind == "join" {
+			if x.act.Kind == "join" || x.act.Kind == "rejoin" {
 				hasJoin = true
 				touched = append(touched, ownerOf(liveIDsSorted, x.act.ID)) // the successor that will hand over
 			} else {
@@ -206,6 +230,22 @@ func runChurn(r *simRing, plan churnPlan, out *churnOutcome) {
 		fns := make([]func(), 0, len(rs))
 		for _, x := range rs {
 			x := x
+			if x.act.Kind == "rejoin" {
+				fns = append(fns, func() {
+					_, err := r.rejoinLocked(x.leaver, x.via)
+					mu.Lock()
+					if err == nil {
+						out.JoinsOK++
+						out.Rejoins++
+					} else {
+						out.JoinsFailed++
+						out.JoinErrs = append(out.JoinErrs, err.Error())
+					}
+					mu.Unlock()
+					logf("phase %d: rejoin %d (old store) via %d -> %v", pi, x.act.ID, x.via, err)
+				})
+				continue
+			}
 			if x.act.Kind == "join" {
 				fns = append(fns, func() {
 					_, err := r.joinLocked(x.act.ID, x.via)
@@ -251,6 +291,20 @@ func (r *simRing) joinLocked(id, via uint64) (*ringsim.Member, error) {
 	r.members[id] = m
 	memberMapMu.Unlock()
 	err := m.Node.Join(r.net.Proxy(id, via))
+	m.JoinErr = err
+	if err == nil {
+		m.Joined.Store(true)
+	}
+	return m, err
+}
+
+// rejoinLocked restarts a departed member: new LocalNode, same id, same store.
+func (r *simRing) rejoinLocked(old *ringsim.Member, via uint64) (*ringsim.Member, error) {
+	m := r.net.AddWithKV(old.ID, old.KV.Inner())
+	memberMapMu.Lock()
+	r.members[old.ID] = m
+	memberMapMu.Unlock()
+	err := m.Node.Join(r.net.Proxy(old.ID, via))
 	m.JoinErr = err
 	if err == nil {
 		m.Joined.Store(true)
